@@ -72,6 +72,7 @@ func (root *Root) AddTypes(types ...Type) (err error) {
 	// revert to the original version.
 	origTypes := root.types
 	origDirs := root.dirs
+	origSchema := root.schema
 	root.types = origTypes.dup()
 	root.dirs = origDirs.dup()
 
@@ -82,6 +83,7 @@ func (root *Root) AddTypes(types ...Type) (err error) {
 	if err != nil {
 		root.types = origTypes
 		root.dirs = origDirs
+		root.schema = origSchema
 	}
 	return
 }
@@ -266,7 +268,10 @@ func (root *Root) addTypes(types ...Type) error {
 	return root.ReplaceRefs()
 }
 
-func (root *Root) addExtends(extends ...*Extend) (err error) {
+// addExtends applies the extensions to the existing types. The returned undo
+// functions revert the changes made to the extended types, even when an error
+// is returned.
+func (root *Root) addExtends(extends ...*Extend) (undo []func(), err error) {
 	for _, x := range extends {
 		if err = root.replaceTypeRefs(x.Adds); err != nil {
 			return
@@ -281,16 +286,45 @@ func (root *Root) addExtends(extends ...*Extend) (err error) {
 			cur = root.schema
 		}
 		if cur == nil {
-			return fmt.Errorf("%s can not be extended because it was %w", x.Adds.Name(), ErrNotFound)
+			return undo, fmt.Errorf("%s can not be extended because it was %w", x.Adds.Name(), ErrNotFound)
 		}
 		if reflect.TypeOf(x.Adds) != reflect.TypeOf(cur) {
-			return fmt.Errorf("%w: %s, a %T can not extend a %T", ErrTypeMismatch, x.Adds.Name(), x.Adds, cur)
+			return undo, fmt.Errorf("%w: %s, a %T can not extend a %T", ErrTypeMismatch, x.Adds.Name(), x.Adds, cur)
 		}
+		undo = append(undo, extendUndo(cur))
 		if err = cur.Extend(x.Adds); err != nil {
 			return
 		}
 	}
-	return nil
+	return
+}
+
+// extendUndo returns a function that restores the members of a type that can
+// be changed by a call to Extend().
+func extendUndo(t Type) func() {
+	switch tt := t.(type) {
+	case *Schema:
+		return extendUndo(&tt.Object)
+	case *Object:
+		fields, interfaces, dirs := tt.fields.dup(), tt.Interfaces, tt.Dirs
+		return func() { tt.fields, tt.Interfaces, tt.Dirs = fields, interfaces, dirs }
+	case *Interface:
+		fields, dirs := tt.fields.dup(), tt.Dirs
+		return func() { tt.fields, tt.Dirs = fields, dirs }
+	case *Input:
+		fields, dirs := tt.fields.dup(), tt.Dirs
+		return func() { tt.fields, tt.Dirs = fields, dirs }
+	case *Enum:
+		values, dirs := tt.values.dup(), tt.Dirs
+		return func() { tt.values, tt.Dirs = values, dirs }
+	case *Union:
+		members, dirs := tt.Members, tt.Dirs
+		return func() { tt.Members, tt.Dirs = members, dirs }
+	case *stringScalar:
+		dirs := tt.Dirs
+		return func() { tt.Dirs = dirs }
+	}
+	return func() {}
 }
 
 // GetType returns the type that matches the provided name or nil if none
@@ -322,23 +356,31 @@ func (root *Root) ParseReader(r io.Reader) error {
 	// revert to the original version.
 	origTypes := root.types
 	origDirs := root.dirs
+	origSchema := root.schema
 	root.types = origTypes.dup()
 	root.dirs = origDirs.dup()
 
+	var undo []func()
 	types, extends, err := parseSDL(root, r)
 	if err == nil {
 		err = root.addTypes(types...)
 	}
 	if err == nil {
-		err = root.addExtends(extends...)
+		undo, err = root.addExtends(extends...)
 	}
 	if err == nil {
 		root.assureSchema()
 		err = root.validate()
 	}
 	if err != nil {
+		// Extensions modify the existing types in place so those changes
+		// have to be reverted as well as the type maps and the schema.
+		for i := len(undo) - 1; 0 <= i; i-- {
+			undo[i]()
+		}
 		root.types = origTypes
 		root.dirs = origDirs
+		root.schema = origSchema
 	}
 	return err
 }
